@@ -181,6 +181,7 @@ def validate_chunks(ctx, module, chunks, env=None, cfg=None, timeout=1800, heap=
         fn, n = ch
         e = dict(env or {})
         e["TRACE_FILE"] = fn
+        e["VERIF_TLC_GCT"] = "2"      # many single-worker JVMs side by side: keep their GC pools small
         r = ctx.tlc(module, cfg=cfg, env=e, workers=1, timeout=timeout, heap=heap)
         r["file"], r["events"] = fn, n
         return r
